@@ -742,9 +742,6 @@ package moss
 // The footer ScanFooter finds when scanning file fref backwards from pos
 // (the recovery scan itself is the subject of C05).
 //@ pure abstract func scanAt(fref *FileRef, pos int64) *Footer
-//@ func ScanFooter(options *StoreOptions, fref *FileRef, fileName string, pos int64) (*Footer, error)
-//@   trusted the recovery scan (C05); here only: its result is a function of the file and the start position
-//@   ensures r1 == nil ==> r0 == scanAt(fref, pos) && r0 != nil
 //@ func (f *Footer) segmentLocs() (SegmentLocs, *segmentStack)
 //@   trusted adds a reference (C15) and returns the footer's segment locations
 //@   ensures r0 == f.SegmentLocs && r1 == f.ss
@@ -824,3 +821,45 @@ package moss
 //@       (forall q int :: itCur(iter).start <= q && q < itCur(iter).curr && keyRank(itCur(iter).s, q) >= rank(seekToKey) ==> !liveAt(iter, q))
 //@   ensures @none result == ErrIteratorDone ==> iter.op == 0 &&
 //@       (forall q int :: itCur(iter).start <= q && q < itCur(iter).end && keyRank(itCur(iter).s, q) >= rank(seekToKey) ==> !liveAt(iter, q))
+
+// ---- recovery scan (C05, C19) -------------------------------------------------------------------------
+
+// Ghost: some file operation has failed (an error other than a short read at
+// the end of the file).
+//@ ghost var ioFailed bool
+
+//@ func File.ReadAt
+//@   modifies ioFailed, elems(p)
+//@   ensures @count 0 <= n && n <= len(p) && (err == nil ==> n == len(p))
+//@   ensures @failed ioFailed == (old(ioFailed) || (err != nil && err != ioEOF))
+
+//@ func (f *Footer) loadSegments(options *StoreOptions, fref *FileRef) (err error)
+//@   trusted maps the segments named by the footer (C04/C15); assumed to fail only when a file operation fails
+//@   modifies ioFailed, fields(f)
+//@   ensures err != nil ==> ioFailed
+//@   ensures !old(ioFailed) && err == nil ==> !ioFailed
+
+// The scan never panics and never allocates a negative size, whatever the
+// file contains; unless a file operation failed it ends with a footer or with
+// ErrNoValidFooter (torn tails, half-written footers, look-alikes of the
+// magic markers and garbage are skipped).
+//@ func encoding/binary.Read
+//@   trusted decodes a fixed-size value from an in-memory buffer that holds enough bytes (8 of footerBeg, 12 of the 24 trailer bytes): cannot fail
+//@   ensures result == nil
+//@ func File.Stat
+//@   modifies ioFailed
+//@   ensures @failed ioFailed == (old(ioFailed) || r1 != nil)
+//@   ensures @info r1 == nil ==> r0 != nil
+
+//@ func ScanFooter(options *StoreOptions, fref *FileRef, fileName string, pos int64) (*Footer, error)
+//@   props C05 C19
+//@   attr obligations P0 ensures call-requires decreases
+//@   requires fref != nil && fref.file != nil && pos >= 0 && pos <= 4611686018427387904 && !ioFailed
+//@   requires StorePageSize > 0 && StorePageSize <= 1073741824 && footerBegLen == 20 && footerEndLen == 24 && lenMagicBeg == 6 && lenMagicEnd == 6
+//@   modifies ioFailed
+//@   ensures @assume_fn r1 == nil ==> r0 == scanAt(fref, pos) && r0 != nil
+//@   ensures @total !ioFailed ==> r1 == nil || r1 == ErrNoValidFooter
+//@   loop 1: modifies ioFailed
+//@   loop 1: invariant !ioFailed && pos <= 4611686018427387904 && fref.file != nil
+//@   loop 2: modifies ioFailed
+//@   loop 2: invariant !ioFailed && pos <= 4611686018427387904 && fref.file != nil
